@@ -30,6 +30,15 @@ def obligations(ctx):
         E.extra_intrinsics[r"TxInputsBuilder::total_value$"] = stub_result(E, g_total, total.build)
         def ms(E_, c, args):
             E_.trace.append(("min_ada_for", args[0]))
+            given = E_.__dict__.get("_c19_given_return")
+            if given is not None:
+                # the minimum that counts is the one of the return output AS GIVEN (its datum and script reference included): a minimum
+                # computed for any other output (a rebuilt one, say) is an unrelated number
+                same = E_.as_u(VM.deref(E_, args[0])) == E_.as_u(given)
+                if E_.choose([same, z3.Not(same)], "minimum computed for the given return itself") == 1:
+                    v = E_.fresh("min_ada_of_another_output")
+                    E_.pc.append(z3.And(v >= 0, v <= U64))
+                    return VEnum("Result", "Ok", [VM.bn(v)])
             i = E_.choose([g_min, z3.Not(g_min)], "min ada")
             return VEnum("Result", "Ok", [VM.bn(minada)]) if i == 0 else VEnum("Result", "Err", [VOpaque("err")])
         E.extra_intrinsics[r"(^|::)min_ada_for_output$"] = ms
@@ -57,7 +66,8 @@ def obligations(ctx):
         tb = E.mk_struct("TransactionBuilder",
                          collateral_return=opt(VLazy("old_return", "TransactionOutput")) if E.choose([old_ret_set, z3.Not(old_ret_set)], "old return") == 0 else opt(None),
                          total_collateral=opt(VM.bn(old_total)) if E.choose([old_total_set, z3.Not(old_total_set)], "old total") == 0 else opt(None))
-        out = E.mk_struct("TransactionOutput", address=VLazy("ret_addr", "Address"), amount=ret.build())
+        out = E.mk_struct("TransactionOutput", address=VLazy("ret_addr", "Address"), amount=ret.build(), plutus_data=VLazy("ret_datum", "Option<DataOption>"), script_ref=VLazy("ret_script_ref", "Option<ScriptRef>"))
+        E._c19_given_return = out
         return [R(tb, "self"), R(out, "collateral_return")]
     ob = Obligation(ctx, "c19_e2_set_collateral_return_and_total", "collateral inputs' total and the return output: lovelace all u64, one arbitrary asset all u64, other assets abstract; "
                     "min-ADA result arbitrary; previously set fields arbitrary", ["TransactionBuilder::set_collateral_return_and_total", "Value::checked_sub (summary)"], fallback_native="e2n_c19_return_min_ada")
